@@ -28,25 +28,46 @@ deriving Repr, Inhabited
 
 instance : Inhabited AttDesc := ⟨⟨0, 0, 0, false, 0⟩⟩
 
-/-- portable form of an attribute decoded earlier (`GetPortableAttribute`) -/
-structure Portable where
-  attType : Nat
+/-- the POSITION attribute object a prediction scheme receives through `SetParentAttribute`:
+    the portable attribute (bitstream ≥ 2.0) or the attribute itself (before 2.0) -/
+structure Parent where
   numComponents : Nat
-  /-- point → value index (copied from the attribute's explicit map) -/
+  /-- point → value index -/
   map : Array Nat
-  values : Array Int
+  /-- `ConvertValue<int64_t>` of every component (portable int32 values) -/
+  ints : Array Int
+  /-- false: the integer view is not modelled (float attribute of a stream < 2.0) -/
+  intsOk : Bool
+  /-- `ConvertValue<float>` of every component -/
+  floats : Array Float32
+  /-- false: the float view is not modelled -/
+  floatsOk : Bool
 
-/-- the prediction scheme object created by `CreateIntPredictionScheme` -/
+/-- the prediction scheme object created by `CreateIntPredictionScheme`
+    (`legacyOcta`: the non-canonicalized octahedron transform of bitstreams < 2.2) -/
 inductive Scheme where
-  | none | deltaWrap | parallelogram | constrainedMulti | texCoords | deltaOcta | geometricNormal
+  | none | deltaWrap | parallelogram | multiParallelogram | constrainedMulti | texCoords
+  | texCoordsDeprecated | deltaOcta (legacyOcta : Bool) | geometricNormal (legacyOcta : Bool)
 deriving Repr, BEq
 
+def Scheme.needsParent : Scheme → Bool
+  | .texCoords | .texCoordsDeprecated | .geometricNormal _ => true
+  | _ => false
+
 /-- `SequentialIntegerAttributeDecoder::DecodeValues` + `DecodeIntegerValues` for an attribute of
-    an Edgebreaker mesh. `kind`: 1 integer, 2 quantization, 3 normals. `parent`: the portable
-    attribute of the first POSITION attribute if it has one already. -/
-def decodeIntegerValuesEb (kind numEntries nc : Nat) (md : MeshData) (pointIds : Array Nat)
-    (parent : Option Portable) : DecM (Array Int) := do
+    an Edgebreaker mesh, every bitstream version. `kind`: 1 integer, 2 quantization, 3 normals;
+    `nc`: components of the portable values, `attComponents`: of the attribute. Returns the portable
+    values and, before 2.0, the transform parameters that precede them. -/
+def decodeIntegerValuesEb (kind numEntries nc attComponents : Nat) (md : MeshData) (pointIds : Array Nat)
+    (parent : Option Parent) : DecM (Array Int × TransformData) := do
+  let ver ← version
+  let pre20 := ver < bsVersion 2 0
+  let pre22 := ver < bsVersion 2 2
+  let rem0 ← remaining
   let method ← rdI8
+  -- position of the method byte, counted from the end of the stream (for the generators of
+  -- tools/props/legacycases.py that patch scheme ids)
+  tag s!"at:method={method}:{rem0}"
   require (decide (Generated.PREDICTION_NONE ≤ method) && decide (method < Generated.NUM_PREDICTION_SCHEMES))
   let mut scheme := Scheme.none
   let mut unsupp := ""
@@ -54,34 +75,44 @@ def decodeIntegerValuesEb (kind numEntries nc : Nat) (md : MeshData) (pointIds :
     let tt ← rdI8
     require (decide (Generated.PREDICTION_TRANSFORM_NONE ≤ tt) && decide (tt < 4))
     if kind == 3 then
+      let geo := method == Generated.MESH_PREDICTION_GEOMETRIC_NORMAL
       if tt == Generated.PREDICTION_TRANSFORM_NORMAL_OCTAHEDRON_CANONICALIZED then
-        scheme := if method == Generated.MESH_PREDICTION_GEOMETRIC_NORMAL then .geometricNormal else .deltaOcta
+        scheme := if geo then .geometricNormal false else .deltaOcta false
       else if tt == Generated.PREDICTION_TRANSFORM_NORMAL_OCTAHEDRON then
-        unsupp := "legacy octahedron transform"
+        scheme := if geo then .geometricNormal true else .deltaOcta true
     else if tt == Generated.PREDICTION_TRANSFORM_WRAP then
       if method == Generated.MESH_PREDICTION_PARALLELOGRAM then scheme := .parallelogram
-      else if method == Generated.MESH_PREDICTION_MULTI_PARALLELOGRAM then unsupp := "multi-parallelogram prediction (legacy)"
-      else if method == Generated.MESH_PREDICTION_TEX_COORDS_DEPRECATED then unsupp := "deprecated tex-coords prediction (legacy)"
+      else if method == Generated.MESH_PREDICTION_MULTI_PARALLELOGRAM then scheme := .multiParallelogram
+      else if method == Generated.MESH_PREDICTION_TEX_COORDS_DEPRECATED then scheme := .texCoordsDeprecated
       else if method == Generated.MESH_PREDICTION_CONSTRAINED_MULTI_PARALLELOGRAM then scheme := .constrainedMulti
       else if method == Generated.MESH_PREDICTION_TEX_COORDS_PORTABLE then scheme := .texCoords
       else if method == Generated.MESH_PREDICTION_GEOMETRIC_NORMAL then unsupp := "geometric normal prediction with the wrap transform"
       else scheme := .deltaWrap
   if unsupp != "" then failWith (.unsupported unsupp) else
-  -- InitPredictionScheme: the schemes with a parent attribute need the portable positions
+  -- InitPredictionScheme: the schemes with a parent attribute
   let mut pos : PosSource := { pointIds := #[], map := #[], values := #[] }
-  if scheme == .texCoords || scheme == .geometricNormal then
+  let mut posF : PosSourceF := { pointIds := #[], map := #[], values := #[] }
+  if scheme.needsParent then
     match parent with
     | none => fail
     | some p =>
       require (p.numComponents == 3)
-      pos := { pointIds := pointIds, map := p.map, values := p.values }
+      if scheme == .texCoordsDeprecated then
+        if !p.floatsOk then unsupp := "deprecated tex-coords prediction: float view of this parent attribute"
+        posF := { pointIds := pointIds, map := p.map, values := p.floats }
+      else
+        if !p.intsOk then unsupp := "integer prediction scheme with the non-portable parent attribute of a stream < 2.0"
+        pos := { pointIds := pointIds, map := p.map, values := p.ints }
+  if unsupp != "" then failWith (.unsupported unsupp) else
+  -- DecodeIntegerValues; before 2.0 the quantization / octahedral parameters come first
+  let tr ← if pre20 then decodeTransformParams kind attComponents else pure TransformData.none
   require (nc > 0)
   let numValues := numEntries * nc
   alloc "integer_decoder.portable_attribute" (4 * numValues)
   require (numEntries > 0)
   let compressed ← rdU8
   let raw : List Nat ←
-    if compressed > 0 then lift (Leaf.decodeSymbols numValues nc)
+    if compressed > 0 then lift (decodeSymbolsV pre20 numValues nc)
     else do
       let numBytes ← rdU8
       if numBytes == 4 then
@@ -94,10 +125,13 @@ def decodeIntegerValuesEb (kind numEntries nc : Nat) (md : MeshData) (pointIds :
         if numBytes == 0 then pure (List.replicate numValues 0) else
         let b ← bytes (numBytes * numValues)
         pure (leGroups numBytes b)
-  let octa := scheme == .deltaOcta || scheme == .geometricNormal
+  let octa := match scheme with
+    | .deltaOcta _ | .geometricNormal _ => true
+    | _ => false
   let vals : Array Int :=
     if octa then (raw.map (toSigned 32)).toArray else (raw.map ofSymbol).toArray
-  match scheme with
+  let numCorners := 3 * md.t.numFaces
+  let out : Array Int ← match scheme with
   | .none => pure vals
   | .deltaWrap =>
     tag "pred:delta"
@@ -108,29 +142,40 @@ def decodeIntegerValuesEb (kind numEntries nc : Nat) (md : MeshData) (pointIds :
     let (r, used) ← liftR (parallelogramDecode md wt nc vals)
     tag (if used > 0 then "pred:parallelogram:used" else "pred:parallelogram:fallback_only")
     pure r
+  | .multiParallelogram =>
+    let wt ← lift Wrap.decodeTransformData
+    let (r, maxPar) ← liftR (multiParallelogramDecode md wt nc vals)
+    tag s!"pred:multi_parallelogram(legacy):max_parallelograms={maxPar}"
+    pure r
   | .constrainedMulti =>
-    -- DecodePredictionData: crease flags for 1..kMaxNumParallelograms parallelograms
+    if pre22 then
+      let mode ← rdU8
+      require (mode == 0)            -- OPTIMAL_MULTI_PARALLELOGRAM
     let kMax := Generated.kMaxNumParallelograms.toNat
+    tag s!"at:constrained_mode:{← remaining}"
     let crease ← replicateM' kMax (do
       let numFlags ← varint 32
-      require (numFlags ≤ 3 * md.t.numFaces)
+      require (numFlags ≤ numCorners)
       if numFlags == 0 then pure (#[] : Array Bool) else
       alloc "constrained_multi_parallelogram.is_crease_edge" (numFlags / 8)
-      let d ← lift (ransBitStart false)
+      tag s!"at:rans:{← remaining}"
+      let d ← lift (ransBitStart pre22)
       pure (rabsReadBits d.probZero numFlags d.ans []).1.toArray)
     let wt ← lift Wrap.decodeTransformData
     let (r, maxPar) ← liftR (constrainedMultiDecode md wt nc crease.toArray vals)
     tag s!"pred:constrained_multi:max_parallelograms={maxPar}"
     pure r
   | .texCoords =>
+    let rem1 ← remaining
+    tag s!"at:orientations:{rem1}"
     let numOrient ← rdI32
     require (decide (numOrient ≥ 0))
     -- not more orientations than corners (`fix:` commit 008c24a)
-    require (numOrient.toNat ≤ 3 * md.t.numFaces)
+    require (numOrient.toNat ≤ numCorners)
     alloc "tex_coords_portable.orientations" (numOrient.toNat / 8)
-    let d ← lift (ransBitStart false)
+    tag s!"at:rans:{← remaining}"
+    let d ← lift (ransBitStart pre22)
     let bits := (rabsReadBits d.probZero numOrient.toNat d.ans []).1
-    -- `if (!bit) last = !last`
     let orient := (bits.foldl (fun (acc : Array Bool × Bool) b =>
       let last := if b then acc.2 else !acc.2
       (acc.1.push last, last)) (Array.mkEmpty bits.length, true)).1
@@ -138,23 +183,43 @@ def decodeIntegerValuesEb (kind numEntries nc : Nat) (md : MeshData) (pointIds :
     let (r, used) ← liftR (texCoordsDecode md pos wt nc orient vals)
     tag (if used > 0 then "pred:tex_coords:geometric" else "pred:tex_coords:fallback_only")
     pure r
-  | .deltaOcta =>
-    tag "pred:delta_octahedron"
-    let maxQ ← rdI32
-    let _center ← rdI32
-    let c ← ofOption (Leaf.octaInit maxQ)
+  | .texCoordsDeprecated =>
+    let numOrient ← if pre22 then rdU32 else varint 32
+    require (numOrient != 0)
+    require (numOrient ≤ numCorners)
+    alloc "tex_coords.orientations" (numOrient / 8)
+    let d ← lift (ransBitStart pre22)
+    let bits := (rabsReadBits d.probZero numOrient d.ans []).1
+    let orient := (bits.foldl (fun (acc : Array Bool × Bool) b =>
+      let last := if b then acc.2 else !acc.2
+      (acc.1.push last, last)) (Array.mkEmpty bits.length, true)).1
+    let wt ← lift Wrap.decodeTransformData
+    tag "pred:tex_coords_deprecated(legacy,float)"
+    liftR (texCoordsDeprecatedDecode md posF (ver < bsVersion 1 2) wt nc orient vals)
+  | .deltaOcta legacyOcta =>
+    tag (if legacyOcta then "pred:delta_octahedron(legacy)" else "pred:delta_octahedron")
+    let c ← if legacyOcta then lift (Octa.legacyDecodeTransformData pre22) else lift Octa.decodeTransformData
+    let dec := if legacyOcta then Octa.legacyDecOrig c else Leaf.octaDec c
     pure (deltaDecode (fun p cr =>
         match p, cr with
-        | [p0, p1], [c0, c1] => let (a, b) := Leaf.octaDec c (p0, p1) (c0, c1); [a, b]
+        | [p0, p1], [c0, c1] => let (a, b) := dec (p0, p1) (c0, c1); [a, b]
         | _, _ => cr) nc vals.toList).toArray
-  | .geometricNormal =>
-    let maxQ ← rdI32
-    let _center ← rdI32
-    let c ← ofOption (Leaf.octaInit maxQ)
-    let fd ← lift (ransBitStart false)
-    let (r, flipped) ← liftR (geometricNormalDecode md pos c fd vals)
-    tag (if flipped > 0 then "pred:geometric_normal:flipped" else "pred:geometric_normal")
+  | .geometricNormal legacyOcta =>
+    let c ← if legacyOcta then lift (Octa.legacyDecodeTransformData pre22) else lift Octa.decodeTransformData
+    let dec := if legacyOcta then Octa.legacyDecOrig c else Leaf.octaDec c
+    let mut oneTriangle := false
+    if pre22 then
+      let mode ← rdU8
+      require (mode ≤ Generated.TRIANGLE_AREA.toNat)
+      oneTriangle := mode == Generated.ONE_TRIANGLE.toNat
+    tag s!"at:normal_mode:{← remaining}"
+    tag s!"at:rans:{← remaining}"
+    let fd ← lift (ransBitStart pre22)
+    let (r, flipped) ← liftR (geometricNormalDecode md pos c dec oneTriangle fd vals)
+    tag ((if flipped > 0 then "pred:geometric_normal:flipped" else "pred:geometric_normal")
+         ++ (if legacyOcta then "(legacy octahedron)" else "") ++ (if oneTriangle then "(one triangle)" else ""))
     pure r
+  pure (out, tr)
 
 /-- one iteration of the corner loop of `UpdatePointToAttributeIndexMapping` -/
 def pointToValueStep (t : TView) (faces : Array Nat) (numPoints : Nat) (v2d : Array Nat) (c : Nat)
@@ -187,10 +252,44 @@ structure EbAttState where
   portable : Array Int := #[]
   hasPortable : Bool := false
   transform : TransformData := .none
+  /-- the attribute holds decoded values -/
+  decoded : Bool := false
+  /-- `TransformAttributesToOriginalFormat` of its decoder has run -/
+  finished : Bool := false
 deriving Inhabited
+
+/-- the values of a float32 attribute as the public API shows them after `StoreValues` -/
+def finalFloats (s : EbAttState) : Option (Array Float32) :=
+  if s.desc.dataType != Generated.DT_FLOAT32.toNat then none else
+  let bytes? : Option Bytes :=
+    if s.decoderType == 0 then some s.rawValues
+    else match s.decoderType, s.transform with
+      | 2, .quantization bits mins range =>
+        some (dequantAll range bits.toNat mins s.portable.toList mins []).flatten
+      | 3, .octahedron bits => some (octaAll bits.toNat s.portable.toList []).flatten
+      | _, _ => none
+  bytes?.map fun b => ((leGroups 4 b).map fun w => Float32.ofBits (UInt32.ofNat w)).toArray
+
+/-- what `InitPredictionScheme` passes to `SetParentAttribute` for the first POSITION attribute -/
+def parentOf (ver : Nat) (skip : List Nat) (ps : EbAttState) (map : Array Nat) : Option Parent :=
+  let pnc := if ps.decoderType == 3 then 2 else ps.desc.numComponents
+  let ofPortable : Parent :=
+    { numComponents := pnc, map := map, ints := ps.portable, intsOk := true,
+      floats := ps.portable.map Float32.ofInt, floatsOk := true }
+  if ver ≥ bsVersion 2 0 then
+    -- decoder_->GetPortableAttribute(att_id)
+    if ps.hasPortable then some ofPortable else none
+  else
+    -- decoder_->point_cloud()->attribute(att_id): the attribute itself, in whatever state it is
+    if ps.finished && ps.hasPortable && skip.contains ps.desc.attType then some ofPortable
+    else
+      let fl := if ps.decoded then finalFloats ps else none
+      some { numComponents := ps.desc.numComponents, map := map, ints := #[], intsOk := false,
+             floats := fl.getD #[], floatsOk := fl.isSome }
 
 /-- `PointCloudDecoder::DecodePointAttributes` of `MeshEdgebreakerDecoder` -/
 def decodeAttributes (opts : DecOpts) (mesh : Mesh) : DecM (List Attribute) := do
+  let ver ← version
   let numAtt := mesh.atts.size
   let numDecoders ← rdU8
   -- CreateAttributesDecoder(i)
@@ -207,7 +306,8 @@ def decodeAttributes (opts : DecOpts) (mesh : Mesh) : DecM (List Attribute) := d
     else
       require (decide (posDecoder < 0))
       posDecoder := i
-    let traversalMethod ← rdU8
+    -- the traversal method is stored since bitstream 1.2 (depth first before)
+    let traversalMethod ← if ver ≥ bsVersion 1 2 then rdU8 else pure 0
     require (traversalMethod < Generated.NUM_TRAVERSAL_METHODS.toNat)
     if decoderType == 0 then            -- MESH_VERTEX_ATTRIBUTE
       decoders := decoders.push { attDataId, cornerDecoder := false, traversalMethod }
@@ -271,38 +371,39 @@ def decodeAttributes (opts : DecOpts) (mesh : Mesh) : DecM (List Attribute) := d
       alloc "attribute.Reset" (numEntries * stride)
       if s.decoderType == 0 then
         let b ← bytes (numEntries * stride)
-        states := states.set! k { s with rawValues := b }
+        states := states.set! k { s with rawValues := b, decoded := true }
       else
         let nc := if s.decoderType == 3 then 2 else s.desc.numComponents
-        let parent : Option Portable :=
+        let parent : Option Parent :=
           match posAtt with
           | none => none
-          | some pk =>
-            let ps := states[pk]!
-            if ps.hasPortable then
-              some { attType := ps.desc.attType,
-                     numComponents := if ps.decoderType == 3 then 2 else ps.desc.numComponents,
-                     map := maps[pk]!, values := ps.portable }
-            else none
-        let vals ← decodeIntegerValuesEb s.decoderType numEntries nc md seq.pointIds parent
-        states := states.set! k { s with portable := vals, hasPortable := true }
-    -- DecodeDataNeededByPortableTransforms
-    for k in idxs do
-      let s := states[k]!
-      if s.decoderType == 2 then
-        let mins ← replicateM' s.desc.numComponents rdU32
-        let range ← rdU32
-        let bits ← rdU8
-        require (1 ≤ bits && bits ≤ 30)
-        states := states.set! k { s with transform := .quantization bits mins range }
-      else if s.decoderType == 3 then
-        let bits ← rdU8
-        states := states.set! k { s with transform := .octahedron bits }
+          | some pk => parentOf ver opts.skip (states[pk]!) (maps[pk]!)
+        let (vals, tr) ← decodeIntegerValuesEb s.decoderType numEntries nc s.desc.numComponents md seq.pointIds parent
+        let s' := { s with portable := vals, hasPortable := true, decoded := true }
+        if ver < bsVersion 2 0 then
+          -- DecodeValues stores the values in their final form right away
+          let s'' := { s' with transform := tr }
+          if s.decoderType == 1 then require (s.desc.dataType ≥ 1 && s.desc.dataType ≤ 6)
+          else if s.decoderType == 3 then
+            match tr with
+            | .octahedron bits => require (2 ≤ bits && bits ≤ 30)
+            | _ => fail
+          states := states.set! k s''
+        else
+          states := states.set! k s'
+    -- DecodeDataNeededByPortableTransforms (the parameters precede the values before 2.0)
+    if ver ≥ bsVersion 2 0 then
+      for k in idxs do
+        let s := states[k]!
+        let tr ← decodeTransformParams s.decoderType s.desc.numComponents
+        if s.decoderType == 2 || s.decoderType == 3 then
+          states := states.set! k { s with transform := tr }
     -- TransformAttributesToOriginalFormat: only checks here, the values are produced below
     for k in idxs do
       let s := states[k]!
       let d := s.desc
-      if s.decoderType != 0 && !opts.skip.contains d.attType then
+      states := states.set! k { s with finished := true }
+      if ver ≥ bsVersion 2 0 && s.decoderType != 0 && !opts.skip.contains d.attType then
         if s.decoderType == 1 then require (d.dataType ≥ 1 && d.dataType ≤ 6)
         else if s.decoderType == 3 then
           match s.transform with
